@@ -229,6 +229,13 @@ fn variants(rng: &mut Rng, thorough: bool) -> Vec<(String, S2kParams)> {
         ];
         for c in counts { specs.push((format!("iter{c}-sha256"), StringToKey::IteratedAndSalted { hash_alg: HashAlgorithm::Sha256, salt: salt8(rng), count: c })); }
         specs.push(("iter7-sha384".into(), StringToKey::IteratedAndSalted { hash_alg: HashAlgorithm::Sha384, salt: salt8(rng), count: 7 }));
+        // digests shorter than the cipher key: the key is assembled from several hash contexts (RFC 9580 3.7.1.1), as GnuPG's
+        // SHA-1 + AES-256 keys are
+        specs.push(("iter96-sha224".into(), StringToKey::IteratedAndSalted { hash_alg: HashAlgorithm::Sha224, salt: salt8(rng), count: 96 }));
+        specs.push(("iter40-sha1".into(), StringToKey::IteratedAndSalted { hash_alg: HashAlgorithm::Sha1, salt: salt8(rng), count: 40 }));
+        specs.push(("iter7-md5".into(), StringToKey::IteratedAndSalted { hash_alg: HashAlgorithm::Md5, salt: salt8(rng), count: 7 }));
+        specs.push(("iter7-ripemd160".into(), StringToKey::IteratedAndSalted { hash_alg: HashAlgorithm::Ripemd160, salt: salt8(rng), count: 7 }));
+        specs.push(("salted-sha224".into(), StringToKey::Salted { hash_alg: HashAlgorithm::Sha224, salt: salt8(rng) }));
         for (kn, s2k) in specs {
             v.push((format!("cfb-{sn}-{kn}"), S2kParams::Cfb { sym_alg: *sym, s2k: s2k.clone(), iv: rng.bytes(bs).into() }));
             v.push((format!("malleable-{sn}-{kn}"), S2kParams::MalleableCfb { sym_alg: *sym, s2k, iv: rng.bytes(bs).into() }));
